@@ -383,6 +383,20 @@ def finish(ctx):
             ctx.known_hits.append(hit["id"])
         else:
             real.append(v)
+    tr = (ctx.cov.get("translator") or {}).get("CompareSpans") or {}
+    if real and tr.get("ok") is False and ctx.pid != "C08":
+        # The translator could not read compare_spans.py: the model's relation table is empty, every disagreement of
+        # this run may be an artefact of that. Not a failing input of THIS property: say what no longer checks
+        # (./check C08 is the check that searches the relation table for a failing pair of spans).
+        real = [{
+            "what": "the translator could not read compare_spans.py; the correspondence of this check cannot be evaluated",
+            "no_input": True,
+            "name": "translator",
+            "replay": {"kind": "no-failing-input-found",
+                       "no_longer_checks": [f"translator:compare_spans.py ({tr.get('error')}) — the relation table of the model is "
+                                            f"empty; {len(real)} disagreement(s) of this run are not reported as failing inputs of "
+                                            f"{ctx.pid}; see ./check C08"]},
+        }]
     code = 0
     lines = []
     if real:
